@@ -962,7 +962,9 @@ fn judge_touched(ctx: &mut Ctx, k: u64, t: usize, fin: Option<&Field>, fout: Opt
 
 // ------------------------------------------------------------------------------------------------ signature operations
 
-const OP_NAMES: [&str; 6] = ["add_vkey_witness(new)", "add_vkey_witness(same-again)", "add_vkey_witness(present-in-input)", "add_bootstrap_witness(new)", "sign_and_add_vkey_signature", "sign_and_add_icarus_bootstrap_signature"];
+const OP_NAMES: [&str; 7] = ["add_vkey_witness(new)", "add_vkey_witness(same-again)", "add_vkey_witness(present-in-input)", "add_bootstrap_witness(new)", "sign_and_add_vkey_signature", "sign_and_add_icarus_bootstrap_signature", "sign_and_add_daedalus_bootstrap_signature"];
+/// the random sequences also draw the seventh operation (the exhaustive stream keeps its six)
+const N_OPS_RANDOM: u64 = 7;
 
 fn push_once(v: &mut Vec<Vec<u8>>, e: Vec<u8>) {
     if !v.contains(&e) {
@@ -1086,6 +1088,38 @@ fn apply_op(ctx: &mut Ctx, ft: &mut FixedTransaction, op: u64, r: &mut Rng, st: 
                 }
             }
         }
+        6 => {
+            // a legacy Daedalus key: 64-byte extended secret (clamped as that derivation leaves it) + chain code
+            let mut kb = r.bytes(96);
+            kb[0] &= 248;
+            kb[31] &= 63;
+            kb[31] |= 64;
+            let mut ext = [0u8; 64];
+            ext.copy_from_slice(&kb[..64]);
+            let pk = cryptoxide::ed25519::extended_to_public(&ext).to_vec();
+            let key = match guard(|| LegacyDaedalusPrivateKey::from_bytes(&kb)) {
+                Ok(Ok(k)) => k,
+                _ => return false,
+            };
+            let ix = r.usize(st.ring.byron.len());
+            let b = &st.ring.byron[ix];
+            log.push(json!({"op": OP_NAMES[6], "ring_byron": ix, "daedalus_key": hx(&kb), "address": b.addr.to_base58(), "public_key": hx(&pk)}));
+            match guard(|| ft.sign_and_add_daedalus_bootstrap_signature(&b.addr, &key)) {
+                Ok(Ok(())) => {
+                    push_once(&mut tr.signers[1], pk);
+                    tr.touched[1] = true;
+                    true
+                }
+                Ok(Err(_)) => {
+                    ctx.bucket("fixed.op.sign-bootstrap-returned-error");
+                    false
+                }
+                Err(p) => {
+                    viol!(ctx, &format!("FixedTransaction.sign_and_add_daedalus_bootstrap_signature/{}", p.sig()), json!({"ops": log.clone(), "panic": p.msg}));
+                    false
+                }
+            }
+        }
         _ => {
             let ix = r.usize(st.ring.byron.len());
             let b = &st.ring.byron[ix];
@@ -1129,7 +1163,7 @@ fn run_ops(ctx: &mut Ctx, mut ft: FixedTransaction, exp: &Exp, mut tr: Track, op
             break;
         }
         done += 1;
-        ctx.bucket(&format!("{}op.{}", prefix, OP_NAMES[(*op).min(5) as usize]));
+        ctx.bucket(&format!("{}op.{}", prefix, OP_NAMES[(*op).min(6) as usize]));
         let l = log.clone();
         judge(ctx, &ft, exp, &tr, &|| mk(&l));
     }
@@ -1384,13 +1418,13 @@ fn fixed_case(ctx: &mut Ctx, r: &mut Rng, st: &St, structural: bool) {
         }
     }
     let nops = r.below(5) as usize;
-    let ops: Vec<u64> = (0..nops).map(|_| r.below(N_OPS)).collect();
+    let ops: Vec<u64> = (0..nops).map(|_| r.below(N_OPS_RANDOM)).collect();
     run_ops(ctx, ft, &exp, Track::default(), &ops, r, st, "from_bytes", &x, "fixed.");
     let which = r.below(4);
     if which < 3 {
         if let Some((f, tr, name)) = load_alt(ctx, which, &exp, &x, "fixed.") {
             let nops = r.below(4) as usize;
-            let ops: Vec<u64> = (0..nops).map(|_| r.below(N_OPS)).collect();
+            let ops: Vec<u64> = (0..nops).map(|_| r.below(N_OPS_RANDOM)).collect();
             run_ops(ctx, f, &exp, tr, &ops, r, st, name, &x, "fixed.");
         }
     }
